@@ -104,6 +104,17 @@ class ParseWalk(object):
         self.paths = SymExec(fn, unroll=1, on_call=on_call).run()
         allocs = {t for st, o in self.paths for e in st.events if e[0] == 'call' and e[1][1][0] == 'attr' and e[1][1][2] == 'append'
                   for t in [e[1][1][1]] if t[0] == 'alloc'}
+        if not allocs:
+            shared = {t[1] for st, o in self.paths for e in st.events if e[0] == 'call' and e[1][1][0] == 'attr' and e[1][1][2] == 'append'
+                      for t in [e[1][1][1]] if t[0] == 'name'}
+            module_lists = {t.id for s_ in mod.tree.body if isinstance(s_, ast.Assign) and isinstance(s_.value, (ast.List, ast.Call))
+                            for t in s_.targets if isinstance(t, ast.Name)}
+            if len(shared & module_lists) == 1:
+                from ..core import StructuralViolation
+                nm = next(iter(shared & module_lists))
+                raise StructuralViolation('R5.2', '%s:%s Category.parse' % (REL, fn.lineno), 'parse:shared-stack',
+                                          'Category.parse keeps its operand stack in the module-level list `%s`: what a rejected text left on it (an exception raised inside the '
+                                          'token loop) is read as part of the next text, so a well-formed category is then misread or rejected' % nm)
         if len(allocs) != 1:
             raise AnalysisError('%s: Category.parse: expected one operand stack created as an empty list, found %d' % (REL, len(allocs)))
         self.stack = next(iter(allocs))
@@ -150,6 +161,16 @@ def r_delimiters(mod, rep, R='R5.1'):
                         patterns[t.id] = pt_
     used = [n.id for n in closure_walk(mod.get('Category.parse')) if isinstance(n, ast.Name) and n.id in regexes]
     used = list(dict.fromkeys(used))
+    if len(used) > 1:
+        # the tokeniser is the one applied to the text as a whole (sub / split / findall / finditer); a pattern that only
+        # tests one token (match / fullmatch / search) validates, it does not cut
+        cutting = []
+        for n in closure_walk(mod.get('Category.parse')):
+            if isinstance(n, ast.Call) and isinstance(n.func, ast.Attribute) and isinstance(n.func.value, ast.Name) and n.func.value.id in regexes \
+                    and n.func.attr in ('sub', 'split', 'findall', 'finditer') and n.func.value.id not in cutting:
+                cutting.append(n.func.value.id)
+        if len(cutting) == 1:
+            used = cutting
     if len(used) != 1:
         raise AnalysisError('%s: cannot identify the tokeniser regex used by Category.parse (candidates: %s)' % (REL, used))
     TOK = used[0]
